@@ -76,8 +76,26 @@ def main():
     # heavy groups first
     sel.sort(key=lambda g: -g.get('timeout', 300))
     results = {}
+    # memory-aware admission: a group declares the memory its solver may use (mem_gb, default 12); groups are admitted while the
+    # declared sum stays within the budget (VERIF_MEM_GB, default 48), so that parallel solvers are not killed by the ulimit
+    import threading
+    budget = float(os.environ.get('VERIF_MEM_GB', '48'))
+    cond = threading.Condition()
+    used = [0.0]
+    def run_admitted(g):
+        need = min(float(g.get('mem_gb', 12)) * float(g.get('mem_share', 0.6)), budget)   # most groups peak well below their limit
+        with cond:
+            while used[0] + need > budget and used[0] > 0:
+                cond.wait()
+            used[0] += need
+        try:
+            return pipeline.run_group(g, a.tier, a.keep)
+        finally:
+            with cond:
+                used[0] -= need
+                cond.notify_all()
     with cf.ThreadPoolExecutor(max_workers=a.jobs) as ex:
-        futs = {ex.submit(pipeline.run_group, g, a.tier, a.keep): g for g in sel}
+        futs = {ex.submit(run_admitted, g): g for g in sel}
         for f in cf.as_completed(futs):
             g = futs[f]
             try:
